@@ -55,7 +55,9 @@ DecodedTypes == {"DIMENSION", "IDENT", "STRING", "URI", "HASH", "COMMENT", "FUNC
 StringTypes == {"STRING", "INVALID"}
 Allowed(type, span) ==
     {Dec(span, 1, type \in StringTypes, FALSE), Dec(span, 1, type \in StringTypes, TRUE)}
-    \cup (IF type \in DecodedTypes THEN {} ELSE {span})
+    \* (CSS has no escapes inside comments: a comment carried as written is "as the syntax prescribes" too; cssutils resolves hex
+    \*  escapes in complete comments and leaves a comment completed at the end of input as written)
+    \cup (IF type \in DecodedTypes \ {"COMMENT"} THEN {} ELSE {span})
 
 \* ---- positions ---------------------------------------------------------------------------------------------
 \* 0-based offset of (line, col) in text t: start of the line (after the (line-1)-th line feed) + col - 1
